@@ -35,7 +35,8 @@ VARIABLES cfg,     \* [L, finite, n, combine, a0L, a0R]
           LP, RP,  \* [0..L-1 -> Env]  stored environment parts (slot = site index inside the unit cell)
           retL, retR,  \* what the last get_LP / get_RP returned
           eff,     \* the effective Hamiltonian held by the engine: parts it was assembled from
-          pc,      \* next phase marker expected: "config","idle","step","effH","local","env","post","free"
+          pc,      \* next phase marker expected: "config","idle","step","effH","local","env","post","free"; "cleanup": in
+                   \* post_run_cleanup (the state of DMRGEngine._canonicalize is kept in `last`)
           todo,    \* calls the current phase still has to make
           cur,     \* current schedule entry [i0, mr, uL, uR] + age: the size reported by update_local
           k,       \* number of steps started in the running sweep
@@ -249,6 +250,43 @@ SweepEnd ==
     /\ UNCHANGED <<cfg, ver, LP, RP, retL, retR, eff, todo, cur, k, sw, sweeps, opt, hs, ext, ok, nrec>>
 
 -----------------------------------------------------------------------------
+(* End of IterativeSweeps.run: post_run_cleanup = mixer_cleanup; DMRGEngine._canonicalize.
+   err is the class of np.linalg.norm(psi.norm_test()): "small" (<= norm_tol_final), "mid" (<= norm_tol), "big".
+     _canonicalize:  if err small: return
+                     if err big and infinite: up to `iter` (norm_tol_iter) rounds of environment sweeps, until err <= norm_tol
+                     if err still not small: psi.canonical_form()
+   so the state handed back is canonical up to norm_tol_final in every case (ReturnedCanonical). *)
+ErrClasses == {"small", "mid", "big"}
+MoreEnvRounds == last.err = "big" /\ ~cfg.finite /\ last.rounds < last.iter
+
+RunCleanup ==
+    /\ pc = "idle" /\ todo = <<>> /\ sweeps >= 1
+    /\ pc' = "cleanup" /\ last' = [op |-> "run_cleanup"]
+    /\ UNCHANGED <<cfg, ver, LP, RP, retL, retR, eff, todo, cur, k, sw, sweeps, opt, hs, ext, ok, nrec>>
+
+CanonBegin(e, it) ==
+    /\ pc = "cleanup" /\ last.op = "run_cleanup"
+    /\ last' = [op |-> "canon", err |-> e, rounds |-> 0, iter |-> it]
+    /\ UNCHANGED <<cfg, ver, LP, RP, retL, retR, eff, pc, todo, cur, k, sw, sweeps, opt, hs, ext, ok, nrec>>
+
+CanonEnv(e) ==       \* one round self.environment_sweeps(update_env); e: class of the norm error afterwards
+    /\ pc = "cleanup" /\ last.op \in {"canon", "canon_env"} /\ MoreEnvRounds
+    /\ last' = [op |-> "canon_env", err |-> e, rounds |-> last.rounds + 1, iter |-> last.iter]
+    /\ UNCHANGED <<cfg, ver, LP, RP, retL, retR, eff, pc, todo, cur, k, sw, sweeps, opt, hs, ext, ok, nrec>>
+
+CanonForm ==         \* psi.canonical_form()
+    /\ pc = "cleanup" /\ last.op \in {"canon", "canon_env"} /\ ~MoreEnvRounds /\ last.err # "small"
+    /\ last' = [op |-> "canon_form", err |-> "small", rounds |-> last.rounds, iter |-> last.iter]
+    /\ UNCHANGED <<cfg, ver, LP, RP, retL, retR, eff, pc, todo, cur, k, sw, sweeps, opt, hs, ext, ok, nrec>>
+
+RunEnd(e) ==         \* _canonicalize returns; e: class of the norm error of the state handed back
+    /\ pc = "cleanup" /\ last.op \in {"canon", "canon_env", "canon_form"}
+    /\ e = last.err
+    /\ (last.op = "canon_form" \/ (last.err = "small" /\ ~MoreEnvRounds))
+    /\ pc' = "config" /\ last' = [op |-> "run_end", err |-> e]
+    /\ UNCHANGED <<cfg, ver, LP, RP, retL, retR, eff, todo, cur, k, sw, sweeps, opt, hs, ext, ok, nrec>>
+
+-----------------------------------------------------------------------------
 \* one call on the environment / the state
 ExecGetL(c) ==
     /\ IF HasL(c.i)
@@ -350,8 +388,12 @@ ExtGet(side, i, st) ==
 DoSweepBegin == \E o, me \in BOOLEAN, mx \in Mixes : SweepBegin(o, me, mx)
 DoExtGet == \E side \in {"L", "R"}, i \in 0..cfg.L, st \in BOOLEAN : ExtGet(side, i, st)
 
+DoCanonBegin == \E e \in ErrClasses, it \in {0, 2} : CanonBegin(e, it)
+DoCanonEnv == \E e \in ErrClasses : CanonEnv(e)
+DoRunEnd == \E e \in ErrClasses : RunEnd(e)
+
 Next == Configure \/ DoSweepBegin \/ StepBegin \/ MakeEffH \/ UpdateLocal \/ UpdateEnv \/ PostUpdate \/ Free
-        \/ SweepEnd \/ Call \/ DoExtGet
+        \/ SweepEnd \/ Call \/ DoExtGet \/ RunCleanup \/ DoCanonBegin \/ DoCanonEnv \/ CanonForm \/ DoRunEnd
 
 Spec == Init /\ [][Next]_vars
 
@@ -362,7 +404,7 @@ EnvOK(e) == /\ e.has \in BOOLEAN
             /\ e.has => /\ Len(e.deps) = IMin(e.cnt, K)
                         /\ e.age >= 0
 
-TypeOK == /\ pc \in {"config", "idle", "step", "effH", "local", "env", "post", "free"}
+TypeOK == /\ pc \in {"config", "idle", "step", "effH", "local", "env", "post", "free", "cleanup"}
           /\ \A s \in Sites : EnvOK(LP[s]) /\ EnvOK(RP[s])
           /\ k \in 0..NSteps
 
@@ -397,8 +439,12 @@ EnergySize == last.op = "full" => last.L.age + last.R.age = cur.age
 \* state constraint used to check EnergySize on everything but the single-site engine on infinite systems
 NotSingleSiteInfinite == pc = "config" \/ cfg.n = 2 \/ cfg.finite
 
+\* ReturnedCanonical: run() hands back a state whose norm error is at most norm_tol_final, and it never leaves
+\* _canonicalize in between (an unfinished clean-up is not a possible end of a run)
+ReturnedCanonical == last.op = "run_end" => last.err = "small"
+
 \* the boundary parts of a finite system are never given up, nothing ever raises
-BoundaryKept == pc # "config" /\ cfg.finite => LP[0] = MkEnv(cfg.a0L, 0, <<>>) /\ RP[L - 1] = MkEnv(cfg.a0R, 0, <<>>)
+BoundaryKept == pc \notin {"config"} /\ cfg.finite => LP[0] = MkEnv(cfg.a0L, 0, <<>>) /\ RP[L - 1] = MkEnv(cfg.a0R, 0, <<>>)
 NoCrash == ok
 
 \* SweepCoversAllBonds: a sweep updates every bond (two-site) / site (single-site); the turning points once,
